@@ -20,21 +20,22 @@ import (
 
 // Ctx carries the output streams and the single PRNG every random choice derives from.
 type Ctx struct {
+	kiPrefix   string // how the next xmlenc element writes the XML-Signature namespace of its KeyInfo subtree ("" = ds)
 	mustRefuse string // oracle line for the current case if the implementation does not refuse it (xmlenc)
-	prop    string
-	tier    string
-	seed    int64
-	rng     *rand.Rand
-	outDir  string
-	cases   *bufio.Writer
-	impl    *bufio.Writer
-	oracle  *bufio.Writer
-	files   []*os.File
-	n       int
-	hist    map[string]map[string]int
-	samples []string
-	keysDir string
-	replay  string
+	prop       string
+	tier       string
+	seed       int64
+	rng        *rand.Rand
+	outDir     string
+	cases      *bufio.Writer
+	impl       *bufio.Writer
+	oracle     *bufio.Writer
+	files      []*os.File
+	n          int
+	hist       map[string]map[string]int
+	samples    []string
+	keysDir    string
+	replay     string
 	// units: number of individual requests / steps evaluated when one case line carries a whole history
 	units int
 	notes *bufio.Writer
@@ -205,7 +206,7 @@ func safely(f func() string) (res string) {
 func newRand(seed int64) *rand.Rand { return rand.New(rand.NewSource(seed)) }
 
 func (c *Ctx) pick(opts ...string) string { return opts[c.rng.Intn(len(opts))] }
-func (c *Ctx) chance(p float64) bool     { return c.rng.Float64() < p }
+func (c *Ctx) chance(p float64) bool      { return c.rng.Float64() < p }
 
 func sortedKeys(m map[string]int) []string {
 	ks := make([]string, 0, len(m))
